@@ -44,7 +44,7 @@ Abstract(s, rs, bs, maxBody, cut) ==
                           big |-> (maxBody > 0 /\ s[i].bodyLen > maxBody), ambig |-> Ambiguous(s[i]), pre |-> PreParsed(s[i]),
                           partial |-> (cut > 0 /\ o[i].start < cut /\ cut < o[i].end)]]
 
-NoCfg == [streaming |-> FALSE, idle |-> "inloop", trace |-> FALSE, wfail |-> 0, deny |-> FALSE, nokeep |-> FALSE]
+NoCfg == [streaming |-> FALSE, idle |-> "inloop", trace |-> FALSE, wfail |-> 0, deny |-> FALSE, nokeep |-> FALSE, tmo |-> 0]
 Blank == /\ reqs' = << >> /\ cfg' = NoCfg /\ sent' = 0 /\ eof' = FALSE /\ rd' = 0
          /\ phase' = "closed" /\ cur' = 1 /\ cons' = 0 /\ interim' = FALSE /\ hlog' = << >> /\ out' = << >>
          /\ topen' = FALSE /\ pairReq' = 0 /\ tlog' = << >> /\ script' = << >> /\ active' = FALSE
@@ -70,7 +70,7 @@ TraceCase == /\ HasLine /\ Line.ev = "Case" /\ ~active
              /\ \A i \in DOMAIN Line.script : WellFormedReq(Line.script[i])
              /\ script' = Line.script /\ active' = TRUE /\ readDone' = FALSE /\ eofSeen' = FALSE /\ unread' = FALSE
              /\ reqs' = Abstract(Line.script, Line.resps, Line.behs, Line.cfg.maxBody, Line.cfg.truncate)
-             /\ cfg' = [streaming |-> Line.cfg.streaming, idle |-> Line.cfg.idle, trace |-> Line.cfg.trace # "off", wfail |-> Line.cfg.wfail, deny |-> Line.cfg.deny, nokeep |-> Line.cfg.nokeep]
+             /\ cfg' = [streaming |-> Line.cfg.streaming, idle |-> Line.cfg.idle, trace |-> Line.cfg.trace # "off", wfail |-> Line.cfg.wfail, deny |-> Line.cfg.deny, nokeep |-> Line.cfg.nokeep, tmo |-> Line.cfg.tmo]
              /\ behs' = Line.behs /\ level' = Line.cfg.trace /\ resps' = Line.resps
              /\ sent' = 0 /\ eof' = FALSE /\ rd' = 0 /\ phase' = "idle" /\ cur' = 1 /\ cons' = 0 /\ interim' = FALSE
              /\ hlog' = << >> /\ out' = << >> /\ topen' = FALSE /\ pairReq' = 0 /\ tlog' = << >>
@@ -112,14 +112,15 @@ TraceReadPre ==
     /\ Line.rd = rd \/ Line.rd = -1
     /\ Consume /\ UNCHANGED <<vars, script, active, readDone, eofSeen, unread, behs, level, resps>>
 
+Slow(i) == cfg.tmo > reqs[i].headEnd /\ cfg.tmo < reqs[i].end     \* see TraceReadTimeout
 \* streamed body: a read returns the next k bytes of the body (0 <= k <= p); EOF exactly at the end
 TraceReadStream ==
     /\ active /\ HasLine /\ Line.ev = "Read" /\ cfg.streaming /\ phase = "handle" /\ (~reqs[cur].pre \/ Denied(cur))
-    /\ Line.err = "" \/ (reqs[cur].partial /\ ~Line.eof)      \* a body cut short by the peer fails the read
+    /\ Line.err = "" \/ ((reqs[cur].partial \/ Slow(cur)) /\ ~Line.eof)      \* a body cut short by the peer, or one read of which timed out, fails the read
     /\ Line.k >= 0 /\ Line.k <= Line.p
     /\ Line.runs = OneRun(cur, cons, Line.k)
     /\ Line.eof => (cons + Line.k = BodyLen(cur) \/ Denied(cur))   \* EOF is not reported early (a refused body is never read)
-    /\ (cons = BodyLen(cur) /\ Line.p > 0) => (Line.eof \/ reqs[cur].partial)   \* nor late: a read at the end reports EOF (or fails when the peer cut the message short)
+    /\ (cons = BodyLen(cur) /\ Line.p > 0) => (Line.eof \/ reqs[cur].partial \/ Slow(cur))   \* nor late: a read at the end reports EOF (or fails when the peer cut the message short)
     /\ Denied(cur) => Line.k = 0
     /\ ~eofSeen \/ Line.k = 0
     /\ Line.rd = -1 \/ (rd <= Line.rd /\ (Line.rd <= reqs[cur].end \/ Over(cur)) /\ Line.rd <= sent)   \* never consumes beyond the body
@@ -129,6 +130,12 @@ TraceReadStream ==
     /\ eofSeen' = (eofSeen \/ Line.eof)
     /\ Consume
     /\ UNCHANGED <<reqs, cfg, sent, eof, phase, cur, interim, hlog, out, topen, pairReq, tlog, script, active, readDone, unread, behs, level, resps>>
+
+\* one read of the connection timed out inside the body of request cur (the peer was slow, the rest of the body
+\* follows): the handler's read fails; afterwards the server still has to skip exactly the rest of the body, or close
+TraceReadTimeout ==
+    /\ active /\ HasLine /\ Line.ev = "ReadTimeout" /\ cfg.tmo > 0 /\ cur <= N /\ Slow(cur) /\ cfg.streaming
+    /\ Consume /\ UNCHANGED <<vars, script, active, readDone, eofSeen, unread, behs, level, resps>>
 
 \* the chunked body writer behaves as an io.Writer: every Write reports all its bytes written, no error (C04)
 TraceWrote ==
@@ -261,7 +268,7 @@ TraceEnd == /\ active /\ HasLine /\ Line.ev = "End" /\ phase = "closed"
 
 Normal == TraceCase \/ TraceDeliver \/ TraceEof \/ TraceInterim \/ TraceHandle \/ TraceReadBuffered \/ TraceReadStream
           \/ TraceHandleEnd \/ TraceRespond \/ TraceClosed \/ TraceContinue \/ TraceEnd
-          \/ TraceReject \/ TraceWriteFail \/ TraceTStart \/ TraceTFinish \/ TraceWrote \/ TraceReadPre
+          \/ TraceReject \/ TraceWriteFail \/ TraceTStart \/ TraceTFinish \/ TraceWrote \/ TraceReadPre \/ TraceReadTimeout
 
 NextCase(k) == IF \E j \in k + 1 .. Len(Trace) : Trace[j].ev = "Case"
                THEN CHOOSE j \in k + 1 .. Len(Trace) : Trace[j].ev = "Case" /\ \A i \in k + 1 .. j - 1 : Trace[i].ev # "Case"
